@@ -1205,7 +1205,7 @@ func ruleQuoRemEarly(c *Ctx) {
 				want = -1
 			}
 			c.check(len(sat) == 1 && sat[0] == want, fmt.Sprintf("quorem.early#%d", n), dj, "the zero-quotient exit compares the coefficients strictly (|y| > |x|)",
-				fmt.Sprintf("QuoRemWithMode: the exit that returns quotient 0 and remainder x is taken when `%s`; it must require |y| strictly greater than |x| - for equal magnitudes the quotient is ±1 and the remainder 0", p.exprStr(dj)), "C03")
+				fmt.Sprintf("QuoRemWithMode: the exit that returns quotient 0 and remainder x is taken when `%s`; it must require |y| strictly greater than |x| - for equal magnitudes the quotient is ±1 and the remainder 0", p.exprStr(dj)), "C03", "C19")
 		}
 	})
 	if n < 1 {
@@ -1678,14 +1678,41 @@ func ruleNilParams(c *Ctx) {
 			key := p.exprKey(&ast.Ident{Name: po.Name()})
 			_ = key
 			k := 0
+			// does the function replace a nil argument by a fresh value (so its result is never nil)?
+			allocates := false
+			ast.Inspect(fd.Body, func(nd ast.Node) bool {
+				if as, ok := nd.(*ast.AssignStmt); ok && len(as.Lhs) == len(as.Rhs) {
+					for i, l := range as.Lhs {
+						if p.objOf(l) == po && p.nilness(as.Rhs[i], ienv{}) == 1 {
+							allocates = true
+						}
+					}
+				}
+				return true
+			})
 			walkStack(fd.Body, func(nd ast.Node, stack []ast.Node) {
-				// dereferences: p.Method(...), p.field, *p
+				// dereferences: p.Method(...), p.field, *p; and, when the function allocates for nil, returning p
 				var base ast.Expr
 				switch x := nd.(type) {
 				case *ast.SelectorExpr:
 					base = x.X
 				case *ast.StarExpr:
 					base = x.X
+				case *ast.ReturnStmt:
+					if !allocates {
+						return
+					}
+					for _, r := range x.Results {
+						if id, ok := ast.Unparen(r).(*ast.Ident); ok && p.Info.Uses[id] == po {
+							k++
+							n++
+							env, reached := p.envWalk(fd.Body.List, ienv{}, x)
+							okNil := reached && (env.isBottom() || p.nilness(id, env) == 1)
+							c.check(okNil, fmt.Sprintf("nilparam:%s:%s#%d", name, po.Name(), k), x, po.Name()+" is known to be non-nil where it is returned",
+								fmt.Sprintf("%s: returns the parameter %s at a point where it may still be nil, although the function allocates a value for a nil argument elsewhere: callers that pass nil get nil back", name, po.Name()), "C20", "C09", "C10")
+						}
+					}
+					return
 				default:
 					return
 				}
@@ -2018,5 +2045,148 @@ func ruleComposeCoefficient(c *Ctx) {
 	}
 	if n < 30 {
 		c.undecided("coef.count", nil, fmt.Sprintf("only %d compose call sites found", n))
+	}
+}
+
+// The shift kernels (uintN.lsh / uintN.rsh) by partial evaluation: for every shift count 0..64N-1 the
+// function is evaluated with all 64N input bits symbolic; output bit j must be input bit j-o (lsh) or
+// j+o (rsh), or zero when that falls outside the value.
+func ruleShiftKernels(c *Ctx) {
+	p := c.P
+	n := 0
+	for _, name := range p.sortedFuncNames() {
+		fd := p.Funcs[name]
+		if fd.Body == nil || fd.Recv == nil {
+			continue
+		}
+		dot := strings.Index(name, ".")
+		if dot < 0 || !strings.HasPrefix(name, "uint") {
+			continue
+		}
+		m := name[dot+1:]
+		if m != "lsh" && m != "rsh" {
+			continue
+		}
+		recvT := p.typeOf(fd.Recv.List[0].Type)
+		limbs := limbsOf(recvT)
+		if limbs < 2 || fd.Type.Params == nil || fd.Type.Params.NumFields() != 1 {
+			continue
+		}
+		n++
+		bad := ""
+		evals := 0
+		for o := 0; o < 64*limbs && bad == ""; o++ {
+			ev := &peEval{p: p}
+			in := &peLimbs{}
+			for i := 0; i < limbs; i++ {
+				in.v = append(in.v, peBits{inputVec(fmt.Sprintf("n%d", i), 64), 64})
+			}
+			res, why := ev.run(fd, in, []peVal{peInt{int64(o)}})
+			evals++
+			if why != "" || len(res) != 1 {
+				bad = fmt.Sprintf("shift count %d: not evaluated: %s", o, why)
+				break
+			}
+			out, ok := res[0].(*peLimbs)
+			if !ok || len(out.v) != limbs {
+				bad = fmt.Sprintf("shift count %d: the result is not a %d-limb value", o, limbs)
+				break
+			}
+			for j := 0; j < 64*limbs && bad == ""; j++ {
+				lb, ok := out.v[j/64].(peBits)
+				if !ok {
+					if iv, isInt := out.v[j/64].(peInt); isInt {
+						lb = peBits{constVec(uint64(iv.v)), 64}
+					} else {
+						bad = fmt.Sprintf("shift count %d: limb %d is not a tracked word", o, j/64)
+						break
+					}
+				}
+				got := lb.bv[j%64]
+				src := j - o
+				if m == "rsh" {
+					src = j + o
+				}
+				want := bit{k: '0'}
+				if src >= 0 && src < 64*limbs {
+					want = bit{k: 'i', src: fmt.Sprintf("n%d", src/64), idx: src % 64}
+				}
+				if got != want {
+					bad = fmt.Sprintf("for a shift count of %d, bit %d of the result is %s, want %s", o, j, got, want)
+				}
+			}
+		}
+		c.check(bad == "", "shift:"+name, fd, fmt.Sprintf("every output bit is the right input bit for every shift count 0..%d (%d evaluations over %d symbolic bits)", 64*limbs-1, evals, 64*limbs),
+			name+": "+bad, "C09", "C10", "C16", "C17", "C18", "C14", "C19")
+	}
+	if n < 4 {
+		c.undecided("shift.count", nil, fmt.Sprintf("only %d shift kernels found", n))
+	}
+}
+
+// FromInt reduces a big.Int in steps of 10^k while its bit length exceeds B. A step may only drop
+// digits that cannot be kept: 2^B (the smallest value that still enters the step) divided by 10^(k-1)
+// must exceed the largest coefficient, otherwise up to k-1 significant digits are lost before rounding.
+func ruleBigReduce(c *Ctx) {
+	p := c.P
+	fd := c.fn("FromInt")
+	if fd == nil {
+		return
+	}
+	cmax := new(big.Int).Lsh(big.NewInt(5), 111)
+	cmax.Sub(cmax, big.NewInt(1))
+	// constants held in *big.Int locals: x := big.NewInt(K)
+	bigConst := map[types.Object]*big.Int{}
+	ast.Inspect(fd.Body, func(n ast.Node) bool {
+		if as, ok := n.(*ast.AssignStmt); ok && len(as.Lhs) == 1 && len(as.Rhs) == 1 {
+			if call, ok := as.Rhs[0].(*ast.CallExpr); ok && p.calleeName(call) == "math/big.NewInt" && len(call.Args) == 1 {
+				if k, ok := constBig(p.constOf(call.Args[0])); ok {
+					if o := p.objOf(as.Lhs[0]); o != nil {
+						bigConst[o] = k
+					}
+				}
+			}
+		}
+		return true
+	})
+	n := 0
+	ast.Inspect(fd.Body, func(nd ast.Node) bool {
+		loop, ok := nd.(*ast.ForStmt)
+		if !ok || loop.Cond == nil {
+			return true
+		}
+		x, op, kb, ok := p.normCmp(loop.Cond)
+		if !ok || op != token.GTR || !kb.IsInt64() || p.exprKey(x) == "" {
+			return true
+		}
+		// the division in the body
+		var div *big.Int
+		for _, s := range loop.Body.List {
+			es, ok := s.(*ast.ExprStmt)
+			if !ok {
+				continue
+			}
+			call, ok := es.X.(*ast.CallExpr)
+			if !ok || !strings.HasSuffix(p.calleeName(call), "big.Int.QuoRem") || len(call.Args) != 3 {
+				continue
+			}
+			if k, ok := bigConst[p.objOf(call.Args[1])]; ok {
+				div = k
+			}
+		}
+		if div == nil {
+			return true
+		}
+		k, isP := isPow10(div)
+		n++
+		B := kb.Int64()
+		lower := new(big.Int).Lsh(big.NewInt(1), uint(B))
+		need := new(big.Int).Mul(cmax, pow10(k-1))
+		c.check(isP && lower.Cmp(need) > 0, fmt.Sprintf("bigreduce:bits>%d/10^%d", B, k), loop, fmt.Sprintf("dividing by 10^%d while more than %d bits remain drops only digits that cannot be kept", k, B),
+			fmt.Sprintf("FromInt: dividing by %s while the value has more than %d bits can drop digits that would still fit the 34-digit coefficient (needs 2^%d > (5·2^111-1)·10^%d): precision is lost before rounding", div, B, B, k-1), "C10", "C09")
+		return true
+	})
+	if n < 2 {
+		c.undecided("bigreduce.count", fd, fmt.Sprintf("only %d big.Int reduction loops found in FromInt", n), "C10")
 	}
 }
